@@ -169,8 +169,15 @@ Proof. by []. Qed.
 Theorem dict_mapping_keeps_its_pairs b n p ps : normalise b n (MDict (p :: ps)) = Ok (p :: ps).
 Proof. by []. Qed.
 Theorem key_sequence_is_auto_associative b n k ks :
-  normalise b n (MSeq (k :: ks)) = Ok [seq (i, i) | i <- k :: ks].
+  normalise b n (MSeq (k :: ks)) = Ok [seq (i, i) | i <- first_occurrences (k :: ks)].
 Proof. by []. Qed.
+
+(* a key sequence stores every key once, however often it is listed *)
+Theorem key_sequence_has_no_duplicates (ks : seq nat) : uniq (first_occurrences ks).
+Proof. by rewrite /first_occurrences rev_uniq undup_uniq. Qed.
+
+Theorem key_sequence_keeps_every_key (ks : seq nat) k : (k \in first_occurrences ks) = (k \in ks).
+Proof. by rewrite /first_occurrences mem_rev mem_undup mem_rev. Qed.
 Theorem by_key_pairs_every_key_with_itself b n :
   (0 < n)%N -> normalise b n MByKey = Ok [seq (i, i) | i <- iota 0 n].
 Proof. by case: n. Qed.
